@@ -28,6 +28,7 @@ TRUSTED_REASONS = {
     'assume_specification: <core::slice::Iter<\'a, T> as Iterator>::all': 'total bool (no postcondition); sound for closures without preconditions, which is what the call site passes',
     'external_body: lex_hostname': 'callee contract in unit lexing/others; the body is verified in unit url (desugaring R10 of slice::split)',
     'external_body: lex_hostport': 'enumerate().find(): contract Some(n) ==> n <= len assumed; reached by Kani harness lexing.url_4 (bounded)',
+    'external_body: without_initiators': 'comments unit: r.start <= r.end <= |source| ASSUMED (two position() scans whose predicate calls char::is_whitespace; vstd specifies that function without a result function and rejects a second specification, so the scans cannot be related); rac:comment_frontends / prose_offsets exercise it',
     'external_body: validate_scheme': 'iter().all(): arbitrary total bool',
     'external_body: validate_local_part': 'e-mail local part check (tuple_windows / iterator code over a sub-slice): arbitrary total bool; its termination and panic-freedom are covered by rac:lexers only',
 
